@@ -523,6 +523,8 @@ fn scenario_oplog(sc: &str) -> Result<Violations, String> {
         let last = !(i + 1..times.len()).any(|j| rec(j).0 == db && rec(j).1 == key);
         if *t >= since && last {
             chk(&mut v, "C12.latest", r.get(&k).map_or(false, |o| o.timestamp == *t && o.db == db && o.key == key && o.opp.to_u8() == op));
+            // (the incremental synchronisation sends what this record SAYS - a write or a remove: a stale label re-sends a removed key or removes a live one)
+            chk(&mut v, "C05.catch-up-names-the-latest-record", r.get(&k).map_or(false, |o| o.timestamp == *t && o.opp.to_u8() == op));
         }
     }
     if std::env::var("VERIF_TRACE").is_ok() {
